@@ -82,6 +82,15 @@ func plusConst(v ssa.Value, base ssa.Value) (int64, bool) {
 // markerGlobal: v is a load of a []byte package variable of package markers
 // with a constant initialiser; returns its name and value.
 func (c *Ctx) markerGlobal(v ssa.Value, mf *markerFacts) (string, string, bool) {
+	// []byte("<constant>") written in place
+	if cv, ok := v.(*ssa.Convert); ok {
+		if cst, ok := cv.X.(*ssa.Const); ok && cst.Value != nil && cst.Value.Kind() == constant.String {
+			return "constant", constant.StringVal(cst.Value), true
+		}
+	}
+	if cst, ok := v.(*ssa.Const); ok && cst.Value != nil && cst.Value.Kind() == constant.String {
+		return "constant", constant.StringVal(cst.Value), true
+	}
 	u, ok := v.(*ssa.UnOp)
 	if !ok || u.Op != token.MUL {
 		return "", "", false
